@@ -19,6 +19,7 @@
 
    So every theorem about `repair` over a read-only refinement transfers to a source S such
    that `Mask S` is one. *)
+From MLA Require Import Limit.
 From MLA Require Import Base Stream Blocks Writer Repair ComposeRdOnly.
 From Coq Require Import ZifyBool ZifyNat ZifyN.
 Open Scope N_scope.
@@ -36,7 +37,86 @@ Definition mask_rd (S : Stream) (s : option (st S)) (n : N) : option (st S) * re
 Definition Mask (S : Stream) : Stream :=
   {| st := option (st S); rd := mask_rd S; sk := fun s _ => (s, Err EInval) |}.
 
+(* ---------- SerializationError (EDeser) comes from finalize only ----------
+   Whatever the source, the block loop and the clean-up never return Err EDeser: the loop
+   masks every read error into a stopping status, and start_file / append_file_content /
+   end_file do not serialise the footer.  So `repair ... = Err EDeser` means: the loop and the
+   clean-up succeeded and w_finalize refused the footer (bincode limit / u32 length). *)
+Section NoSer.
+  Variable X : Stream.
+  Variables FNMAX CACHE T_START T_CONTENT T_EOA T_EOF : N.
+  Variable H : bytes -> bytes.
+
+  Lemma w_start_noser s name o :
+    w_start FNMAX T_START T_CONTENT T_EOA T_EOF s name = (o, Err EDeser) -> False.
+  Proof.
+    unfold w_start. destruct (w_final s); [discriminate|]. destruct (_ <? _); [discriminate|].
+    destruct (name_used _ _); discriminate.
+  Qed.
+
+  Lemma w_append_noser s id size src o : w_append T_CONTENT s id size src = (o, Err EDeser) -> False.
+  Proof.
+    unfold w_append. destruct (w_final s); [discriminate|]. destruct (alookup _ _); [|discriminate].
+    destruct (size =? 0); [discriminate|]. cbv zeta. destruct (_ <? _); discriminate.
+  Qed.
+
+  Lemma w_end_noser s id o : w_end T_START T_CONTENT T_EOA T_EOF H s id = (o, Err EDeser) -> False.
+  Proof.
+    unfold w_end. destruct (w_final s); [discriminate|]. destruct (alookup _ _); discriminate.
+  Qed.
+
+  Lemma content_loop_noser fuel : forall s out id r got s' o' g' re,
+    content_loop CACHE T_CONTENT X fuel s out id r got = (s', o', g', re, Some EDeser) -> False.
+  Proof.
+    induction fuel as [|f IH]; intros s out id r got s' o' g' re; cbn [Repair.content_loop]; [discriminate|].
+    destruct (buf_fill CACHE X (Datatypes.S f) s r []) as [[[s1 rem'] buf] rerr].
+    destruct (w_append T_CONTENT out id (len buf) buf) as [out1 [x|x|x]] eqn:Ew.
+    - destruct rerr; [discriminate|]. destruct (_ <? _); [discriminate | apply IH].
+    - intros E. assert (Ex : x = EDeser) by congruence. subst x. exact (w_append_noser _ _ _ _ _ Ew).
+    - discriminate.
+  Qed.
+
+  Lemma block_loop_noser fuel : forall st st',
+    block_loop FNMAX CACHE T_START T_CONTENT T_EOA T_EOF H X fuel st = (st', Err EDeser) -> False.
+  Proof.
+    induction fuel as [|f IH]; intros st st'; [discriminate|].
+    cbn [Repair.block_loop].
+    destruct (parse_block FNMAX T_START T_CONTENT T_EOA T_EOF X (rp_src X st)) as [s1 [pb|pe|c]];
+      [|destruct pe; discriminate|discriminate].
+    destruct pb as [id name|id l|id h|]; cbv zeta.
+    - destruct (existsb _ _); [discriminate|]. destruct (mem _ _); [discriminate|].
+      destruct (w_start FNMAX T_START T_CONTENT T_EOA T_EOF (rp_out X st) name) as [o1 [x|x|x]] eqn:Ew;
+        [apply IH| |discriminate].
+      destruct x; try discriminate. intros _. exact (w_start_noser _ _ _ Ew).
+    - destruct (assoc _ id) as [ido|]; [|discriminate]. destruct (mem _ _); [discriminate|].
+      destruct (assoc (rp_names X st) id); [|discriminate]. destruct (assoc (rp_hash X st) id) as [hashed|]; [|discriminate].
+      destruct (content_loop CACHE T_CONTENT X (Datatypes.S f) s1 (rp_out X st) ido l []) as [[[[s2 o2] g2] e2] f2] eqn:Ec.
+      destruct f2 as [fe|].
+      + destruct e2; intros E; (assert (Ex : fe = EDeser) by congruence); subst fe;
+          exact (content_loop_noser _ _ _ _ _ _ _ _ _ _ Ec).
+      + destruct e2; [discriminate | apply IH].
+    - destruct (assoc _ id) as [ido|]; [|discriminate]. destruct (mem _ _); [discriminate|].
+      destruct (assoc (rp_hash X st) id) as [hashed|]; [|discriminate].
+      destruct (negb _); [discriminate|].
+      destruct (w_end T_START T_CONTENT T_EOA T_EOF H (rp_out X st) ido) as [o1 [x|x|x]] eqn:Ew;
+        [apply IH| |discriminate].
+      intros E. assert (Ex : x = EDeser) by congruence. subst x. exact (w_end_noser _ _ _ Ew).
+    - discriminate.
+  Qed.
+
+  Lemma cleanup_noser st : forall ids out unf,
+    cleanup T_START T_CONTENT T_EOA T_EOF H X ids st out unf = Err EDeser -> False.
+  Proof.
+    induction ids as [|[idf ido] r IH]; intros out unf; cbn [Repair.cleanup]; [discriminate|].
+    destruct (mem _ _); [apply IH|]. destruct (assoc _ idf); [|discriminate].
+    destruct (w_end T_START T_CONTENT T_EOA T_EOF H out ido) as [o1 [x|x|x]] eqn:Ew;
+      [apply IH| |discriminate].
+    intros E. assert (Ex : x = EDeser) by congruence. subst x. exact (w_end_noser _ _ _ Ew).
+  Qed.
+End NoSer.
+
 Section MaskSim.
+  Context {LIM : Limit}.
   Variable S : Stream.
   Notation M := (Mask S).
 
@@ -247,6 +327,26 @@ Section MaskSim.
       destruct (cleanup M (rp_ids M y) y (rp_out M y) []) as [[o1 u1]|e1|c1]; [|discriminate..].
       destruct (w_finalize_with _ _ _ _ _ o1) as [o2 [v|v|v]]; [|discriminate..].
       intros [= <- <- <-]. eexists; reflexivity.
+    Qed.
+
+    (* ... and a SerializationError of finalize over Mask S is one over S: the loop and the
+       clean-up cannot produce it (NoSer above), so both runs reached the same w_finalize call *)
+    Theorem repair_mask_ser fuel s0 out0 :
+      repair M fuel (Some s0) out0 = Err EDeser -> repair S fuel s0 out0 = Err EDeser.
+    Proof.
+      unfold Repair.repair.
+      pose proof (block_loop_mask fuel s0 out0 [] [] [] []) as Hb.
+      pose proof (block_loop_noser M FNMAX CACHE T_START T_CONTENT T_EOA T_EOF H fuel
+                    (mkRP M (Some s0) out0 [] [] [] [])) as Hns.
+      destruct (block_loop S fuel _) as [x r]. destruct (block_loop M fuel _) as [y r'].
+      unfold rp_rel_m in Hb. cbn [fst snd] in Hb.
+      destruct r' as [st'|e'|c']; [|intros [= ->]; exfalso; exact (Hns _ eq_refl)|discriminate].
+      destruct Hb as ((st & ->) & Ho & Hi & Hn & Hd).
+      rewrite Ho, Hi, (cleanup_sim S M _ _ _ _ _ (rp_ids _ y) x y (rp_out _ y) [] Hn Hd).
+      pose proof (cleanup_noser M T_START T_CONTENT T_EOA T_EOF H y (rp_ids M y) (rp_out M y) []) as Hc.
+      destruct (cleanup M (rp_ids M y) y (rp_out M y) []) as [[o1 u1]|e1|c1];
+        [|intros [= ->]; exfalso; exact (Hc eq_refl)|discriminate].
+      destruct (w_finalize_with _ _ _ _ _ o1) as [o2 [v|v|v]]; [discriminate|exact (fun E => E)|discriminate].
     Qed.
   End Loop.
 End MaskSim.
